@@ -13,6 +13,7 @@ mod engine;
 mod galloc;
 mod groups;
 mod loopdrv;
+mod loopmodel;
 mod props;
 mod trace;
 mod util;
@@ -358,7 +359,11 @@ fn run_parent(id: &str, tier: Tier, seed: i64) -> i32 {
         match std::fs::read(&c.out).ok().and_then(|b| serde_json::from_slice::<ShardResult>(&b).ok()) {
             Some(r) => results.push(r),
             None => {
-                if let Some(sig) = &crashed {
+                if c.done.as_ref().and_then(|s| s.code()) == Some(loopdrv::BUDGET_EXIT) {
+                    infra.push(format!("shard {} abandoned a runaway run (event budget exhausted; inconclusive, not a violation)", c.k));
+                } else if crashed.as_deref() == Some("SIGKILL") {
+                    infra.push(format!("shard {} was killed (SIGKILL: out of memory or external kill; inconclusive, not a violation)", c.k));
+                } else if let Some(sig) = &crashed {
                     // The process died while executing a case: that is a
                     // finding when the journal tells us which case it was.
                     if let Some(j) = std::fs::read(&c.journal)
